@@ -49,8 +49,8 @@ OPT = lambda s: st.one_of(st.none(), s)  # noqa: E731
 GROUP = st.fixed_dictionaries({
     "account": st.sampled_from(["acct", "proj-1", "a_b"]),
     "walltime": st.sampled_from(["4:00:00", "0:05:00", "100:00:00"]),
-    "partition": OPT(st.sampled_from(["debug", "short"])), "qos": OPT(st.just("high")), "mem": OPT(st.sampled_from(["10G", "184000"])),
-    "tmp": OPT(st.just("1T")), "gres": OPT(st.sampled_from(["gpu:1", "gpu:2"])), "reservation": OPT(st.just("res_1")),
+    "partition": OPT(st.sampled_from(["debug", "short"])), "qos": OPT(st.just("high")), "mem": OPT(st.sampled_from(["10G", "184000", "0", 0, 92000])),
+    "tmp": OPT(st.sampled_from(["1T", 0, 500])), "gres": OPT(st.sampled_from(["gpu:1", "gpu:2"])), "reservation": OPT(st.just("res_1")),
     "nodes": OPT(st.integers(1, 9)), "ntasks": OPT(st.integers(1, 9)), "ntasks_per_node": OPT(st.integers(1, 36)),
     "name": st.from_regex(r"[A-Za-z0-9_]{1,12}_batch_[0-9]{1,3}", fullmatch=True),
     "nproc": OPT(st.integers(1, 36)), "dsub": st.booleans(), "verbose": st.booleans(),
@@ -257,7 +257,9 @@ def run_script_case(case, res):
                     "output": f"{out}/job_output_%j.o", "error": f"{out}/job_output_%j.e"}
             model = group.submitter_params.hpc_config.hpc  # validated public model (nodes may have been defaulted to 1)
             for f in ("partition", "qos", "mem", "tmp", "gres", "reservation", "nodes", "ntasks", "ntasks_per_node"):
-                val = getattr(model, f)
+                # a parameter the user set (also numbers, also 0: `mem = 0` asks for all the memory of the node) must be in the
+                # script as given; an unset one appears only with the model's own default (nodes)
+                val = g[f] if g[f] is not None else getattr(model, f)
                 if val is not None:
                     want[f.replace("_", "-")] = str(val)
             if opts != want:
